@@ -384,7 +384,11 @@ impl<CharIter: Iterator<Item = char>> Lexer<CharIter> {
                 self.advance(1);
             }
         }
-        self.digital10(number_literal)
+        self.digital10(number_literal)?;
+        match self.peekable_char_stream.peek() {
+            Some(nc) => Self::test_delimiter(Some(self.location), *nc),
+            None => Ok(()),
+        }
     }
 
     fn real(&mut self, number_literal: &mut String) -> Result<()> {
@@ -445,6 +449,9 @@ impl<CharIter: Iterator<Item = char>> Lexer<CharIter> {
                                 let mut denominator = String::new();
                                 self.advance(1);
                                 self.digital10(&mut denominator)?;
+                                if let Some(nc) = self.peekable_char_stream.peek() {
+                                    Self::test_delimiter(Some(self.location), *nc)?;
+                                }
                                 break Ok(Some(TokenData::Primitive(Primitive::Rational(
                                     self.integer_literal(&number_literal)?,
                                     match self.integer_literal(&denominator)? {
